@@ -23,7 +23,7 @@ RULE = ('Seeded histories of 2..8 operations on a directory with <= 3 paths: put
 ASSUMPTIONS = ['fault-free by statement: no crash / truncation is injected here', 'SED values are compared within 1e-12 relative (SED.read multiplies and divides by nu even when the unit is unchanged); cube and convolved files exactly',
                'for an SED written without apertures only the single row of values is required (apertures need not come back as None)']
 PROBES = ['overwrite_other_shape', 'sed_asc_written', 'sed_desc_written', 'cube_no_unc', 'cube_no_apertures', 'cube_memmap_read', 'cube_get_sed',
-          'read_order_wav', 'read_order_nu', 'unit_erg', 'unit_jy', 'conv_no_apertures', 'stale_memmap_reader', 'sed_no_apertures', 'gz_path', 'gz_sibling_present', 'read_in_other_unit', 'uncertainties_in_other_unit']
+          'read_order_wav', 'read_order_nu', 'unit_erg', 'unit_jy', 'conv_no_apertures', 'stale_memmap_reader', 'sed_no_apertures', 'gz_path', 'gz_sibling_present', 'read_in_other_unit', 'uncertainties_in_other_unit', 'cube_get_sed_twice']
 
 
 def budgets(tier):
@@ -311,6 +311,19 @@ def _execute(sc, sim, out):
                     msg = 'get_sed(%s) errors do not match the stored uncertainties' % R.names[k]
                 elif sd.name != R.names[k]:
                     msg = 'get_sed name %s' % sd.name
+                if msg is None and len(R.names) > 1:
+                    # extract the other models from the SAME cube object, then look at the first one again
+                    k2 = (k + 1 + st['pick'] // 7) % len(R.names)
+                    if k2 == k:
+                        k2 = (k + 1) % len(R.names)
+                    rs2 = pipe.call(c.get_sed, R.names[k2])
+                    out.probe('cube_get_sed_twice')
+                    if rs2[0] != 'ok':
+                        msg = 'second get_sed raised %s' % pipe.exc_name(rs2)
+                    elif not np.array_equal(np.asarray(rs2[1].flux.value, float), R.val[k2][:, idx]) or rs2[1].name != R.names[k2]:
+                        msg = 'get_sed(%s) after get_sed(%s) does not return the SED that was put in' % (R.names[k2], R.names[k])
+                    elif sd.name != R.names[k] or not np.array_equal(np.asarray(sd.flux.value, float), R.val[k][:, idx]):
+                        msg = 'the SED returned by get_sed(%s) changed when get_sed(%s) was called on the same cube' % (R.names[k], R.names[k2])
             if msg is None and st['memmap'] and st.get('keep_open'):
                 open_cubes.append((c, R, order))
         else:
